@@ -235,9 +235,20 @@ func c05TSwitch(v float64) []float64 {
 	return []float64{s, math.Nextafter(s, 0), math.Nextafter(s, 2), math.Floor(s*4096) / 4096, math.Ceil(s*4096) / 4096}
 }
 
+// TDist.CDF(x) goes through V/(V+x*x), which is within an ulp of 1 when x*x is below about 1e-16 V:
+// the abscissae s, 16 s, 256 s with s = 2^-27 sqrt(V) are where the absolute error that this
+// cancellation can cause, min(pdf(0) x, 1e-17 V / x), is largest.
+func c05TTiny(v float64) []float64 {
+	s := math.Ldexp(math.Sqrt(v), -27)
+	return []float64{s, 16 * s, 256 * s}
+}
+
 func c05TGrid(rng *rand.Rand, v float64, extra bool) []F64 {
 	var xs []float64
 	for _, t := range c05T {
+		xs = append(xs, t, -t)
+	}
+	for _, t := range c05TTiny(v) {
 		xs = append(xs, t, -t)
 	}
 	for _, t := range c05TSwitch(v) {
